@@ -432,7 +432,7 @@ func (g *c12Gen) block(d int) jast.Node {
 func (g *c12Gen) hof(d int) jast.Node {
 	r := g.r
 	arr := &jast.Path{Steps: []jast.Node{&jast.Name{V: "nums"}}}
-	switch r.Intn(5) {
+	switch r.Intn(6) {
 	case 0:
 		g.tags["hof:map"] = true
 		return &jast.Call{Fn: &jast.Var{Name: "map"}, Args: []jast.Node{arr, &jast.Lambda{Params: []string{"v", "i"}[:r.Range(1, 2)], Body: &jast.Bin{Op: "+", L: &jast.Var{Name: "v"}, R: g.num(d + 1)}}}}
@@ -442,6 +442,33 @@ func (g *c12Gen) hof(d int) jast.Node {
 	case 2:
 		g.tags["hof:reduce"] = true
 		return &jast.Call{Fn: &jast.Var{Name: "reduce"}, Args: []jast.Node{arr, &jast.Lambda{Params: []string{"acc", "v"}, Body: &jast.Bin{Op: "-", L: &jast.Bin{Op: "*", L: &jast.Var{Name: "acc"}, R: &jast.Num{V: 2}}, R: &jast.Var{Name: "v"}}}}}
+	case 4:
+		// callbacks that declare fewer or more parameters than the built-in
+		// offers: surplus arguments are ignored, missing ones are 'no value'
+		n := r.Intn(5)
+		params := []string{"p", "q", "s", "t"}[:n]
+		var body jast.Node = &jast.Array{Items: []jast.Node{&jast.Str{V: "c"}}}
+		for _, p := range params {
+			body.(*jast.Array).Items = append(body.(*jast.Array).Items, call("type", &jast.Var{Name: p}))
+		}
+		fn := r.Pick("map", "filter", "single", "each", "sift", "each", "sift")
+		g.tags[fmt.Sprintf("hof:%s:callback-with-%d-parameters", fn, n)] = true
+		var subject jast.Node = arr
+		switch fn {
+		case "each", "sift":
+			subject = lit(O{"k": 1.0})
+			if r.Bool() {
+				subject = lit(O{"k": 1.0, "j": "x"})
+			}
+		case "single":
+			subject = lit(A{7.0})
+		}
+		res := call(fn, subject, &jast.Lambda{Params: params, Body: body})
+		if fn == "each" {
+			// (the order of the members of an object is not specified)
+			res = call("count", res)
+		}
+		return res
 	case 3:
 		g.tags["hof:sort"] = true
 		return &jast.Call{Fn: &jast.Var{Name: "sort"}, Args: []jast.Node{arr, &jast.Lambda{Params: []string{"l", "r"}, Body: &jast.Bin{Op: r.Pick(">", "<"), L: &jast.Var{Name: "l"}, R: &jast.Var{Name: "r"}}}}}
